@@ -68,6 +68,10 @@ type fnSig struct {
 	// translated function that calls it
 	abstract bool
 	absType  string
+	// parameters that the function slices with an upper bound, x[:hi] / x[lo:hi] (directly or by passing them on to such a
+	// function): Go checks hi against the CAPACITY, the translation against the length (capacity is not modelled), so
+	// callers inside the translated code must pass slices without spare capacity
+	capIdx []int
 }
 
 // loopSigs: the translated functions by "import path.name".
@@ -219,6 +223,7 @@ func (t *loopTr) flowCall(st ast.Stmt, c *ast.CallExpr, sig *fnSig, lhs []ast.Ex
 	if c.Ellipsis.IsValid() || len(c.Args) != len(sig.params) {
 		t.fail(c, "call arity")
 	}
+	t.checkCapArgs(c, sig)
 	if lhs != nil && len(lhs) != len(sig.rets) {
 		t.fail(st, "assignment arity")
 	}
@@ -432,6 +437,9 @@ func (t *loopTr) argValue(a ast.Expr) (string, lkind) {
 	}
 	if !k.isSlice() && k != kString {
 		t.fail(a, "slice expression on %s", k.lean())
+	}
+	if se.High != nil && k != kString {
+		t.noteCapSensitive(se.X)
 	}
 	bound := func(e ast.Expr) (nat, bv string) {
 		if tv := t.typeOf(e); tv.Value != nil {
@@ -652,6 +660,7 @@ func (t *loopTr) sigCall(x *ast.CallExpr, sig *fnSig) (string, lkind) {
 	if sig.method || len(sig.rets) != 1 || x.Ellipsis.IsValid() || len(x.Args) != len(sig.params) {
 		t.fail(x, "unsupported call %s", t.p.src(x))
 	}
+	t.checkCapArgs(x, sig)
 	parts := []string{sig.lean}
 	for i, a := range x.Args {
 		v, k := t.argValue(a)
@@ -676,6 +685,9 @@ func (t *loopTr) register(leanName string) {
 			sig.params = append(sig.params, t.kindOf(o.Type(), id))
 			if t.isOutBuf(o) {
 				sig.outIdx = append(sig.outIdx, idx)
+			}
+			if t.capSens[o] {
+				sig.capIdx = append(sig.capIdx, idx)
 			}
 			idx++
 		}
@@ -786,6 +798,7 @@ func (t *loopTr) hoistCalls(ind string, m blockMode, skip *ast.CallExpr, ns ...a
 		if len(sig.outIdx) != 0 || len(sig.rets) != 1 || sig.method || c.Ellipsis.IsValid() || len(c.Args) != len(sig.params) {
 			t.fail(c, "call of %s inside an expression: only functions with one result that do not write into a parameter are supported there (otherwise as a statement of its own)", sig.lean)
 		}
+		t.checkCapArgs(c, sig)
 		parts := []string{sig.lean}
 		for i, a := range c.Args {
 			v, k := t.argValue(a)
@@ -948,4 +961,43 @@ func nestedKind(ty types.Type) (lkind, bool) {
 		return kInt8ss, true
 	}
 	return 0, false
+}
+
+// ---------------------------------------------------------------- capacity
+
+// noteCapSensitive records that the slice x is sliced with an upper bound: if x is a parameter, its callers inside the
+// translated code must not pass a slice with spare capacity (checkCapArgs).
+func (t *loopTr) noteCapSensitive(x ast.Expr) {
+	if o := t.varOf(x); o != nil && t.params[o] {
+		if _, isSlice := o.Type().Underlying().(*types.Slice); isSlice {
+			t.capSens[o] = true
+		}
+	}
+}
+
+// checkCapArgs: an argument for a parameter the callee slices with an upper bound must have no spare capacity the
+// translation could not see: it must not itself be a slice expression with an upper bound; a parameter of the caller
+// (or a window p[lo:] of one) is passed on under the same condition.
+func (t *loopTr) checkCapArgs(c *ast.CallExpr, sig *fnSig) {
+	for _, i := range sig.capIdx {
+		if i >= len(c.Args) {
+			continue
+		}
+		a := unparen(c.Args[i])
+		base := a
+		if se, ok := a.(*ast.SliceExpr); ok {
+			if se.High != nil || se.Slice3 {
+				t.fail(a, "%s slices this parameter with an upper bound, which Go checks against the capacity: passing %s, which has spare capacity, is not supported (capacity is not modelled)", sig.lean, t.p.src(a))
+			}
+			base = unparen(se.X)
+		}
+		if ix, ok := base.(*ast.IndexExpr); ok {
+			base = unparen(ix.X) // a row of a slice of slices: the rows are the caller's
+		}
+		if o := t.varOf(base); o != nil && t.params[o] {
+			if _, isSlice := o.Type().Underlying().(*types.Slice); isSlice {
+				t.capSens[o] = true
+			}
+		}
+	}
 }
